@@ -145,6 +145,8 @@ def check_kinds(ctx, out):
 
 def check_blank(ctx, out):
     n = 0
+    banned = []         # length-changing str calls inside closures: fine only inside a function proven below
+    proven = set()
     # (1) replacen sites
     for b in ctx.reachable_bodies():
         if "language_parsers" not in b.id:
@@ -163,8 +165,7 @@ def check_blank(ctx, out):
                 out.viol("C03.blank", "C03.blank|%s|replace-all" % b.id, ctx.where(b, t["span"]),
                          "comment text is passed through `str::replace`, which rewrites EVERY occurrence of the pattern: besides the comment's own delimiter, the same characters inside the comment - in a tag's attribute values (`name=\"a//b\"`, `line-pattern=\"^https://\"`) - are altered, so attributes are no longer reported as written (only the leading delimiter may be blanked: `replacen(.., 1)`)")
             elif callee_matches(t, r"<impl str>::(trim_start_matches|trim_matches|strip_prefix|trim_start|trim)$") and "{closure" in b.id:
-                out.viol("C03.blank", "C03.blank|%s|%s" % (b.id, callee_name(t).split("::")[-1]), ctx.where(b, t["span"]),
-                         "a comment visitor uses `%s`, which changes the text's length: tag offsets would no longer map to source positions" % callee_name(t).split("::")[-1])
+                banned.append((b, t))
     # (2) the hand-written normalisers: on every path that returns the rewritten text, the pieces pushed
     # add up to the length of the input text - decided symbolically (engine/lensym.py)
     from engine import lensym
@@ -201,6 +202,28 @@ def check_blank(ctx, out):
                      "comment normaliser `%s` is not length-preserving: %s" % (b.name if b.kind != "Closure" else b.id.split("::")[-2] + " visitor", m))
         if rep and not bad:
             n += 1
+            proven.add(b.id)
+    # (2b) normalisers that compute the rewritten text as an expression (`" ".repeat(k) + rest`,
+    # `[a, "  ", b].concat()`): the returned String has the length of the text parameter
+    for b in lp:
+        if b in analysed or b.kind not in ("Fn", "AssocFn") or not re.match(r"(std::option::Option<)?std::string::String>?$", b.local_ty(0)):
+            continue
+        v = ctx.inl(b, skip=ctx.domain_api, tag="domain", sugar=True)
+        if not any(re.search(r"ops::Add<&str>>::add$|<impl \[T\]>::concat$|Concat<str>>::concat$|<impl str>::repeat$", callee_name(t)) for bi, t in v.calls()):
+            continue
+        rep = lensym.expr_len_report(ctx, v)
+        bad = [m for ok, m in rep if not ok]
+        for i, m in enumerate(sorted(set(bad))):
+            out.viol("C03.blank", "C03.blank|%s|length|%d" % (b.id, i), ctx.where(b), "comment normaliser `%s` is not length-preserving: %s" % (b.name, m))
+        if rep and not bad:
+            n += 1
+            proven.add(b.id)
+    for b, t in banned:
+        root = b.id.split("::{closure")[0]
+        if root in proven:
+            continue        # the closure is part of a function whose result was proven to keep the length
+        out.viol("C03.blank", "C03.blank|%s|%s" % (b.id, callee_name(t).split("::")[-1]), ctx.where(b, t["span"]),
+                 "a comment visitor uses `%s`, which changes the text's length: tag offsets would no longer map to source positions" % callee_name(t).split("::")[-1])
     out.inst("C03.blank", n, 6, note="replacen sites (same-length single replacement) + hand-written normalisers (symbolic length accounting on every returning path)")
 
 
